@@ -27,7 +27,7 @@ fn spec(t: Tier) -> Spec {
         id: "C03",
         level: "exploration",
         rule: format!("every ordered forest of directories, files and links to a directory (walked under -P and -L) with <= {n} nodes (sibling names B,Z,_,a,a.b,é: byte order differs from case-folded order) x every subset of its directories (and the starting point) selected for pruning x 3 expression forms (path alternation before -prune -o -print; -print before the prune test; -name TEST -prune -o -print) x (pre-order | -depth | unreachable -delete, the latter two written before and after the expression holding -prune) x 5 depth windows x (-sorted: exact sequence | unsorted: multiset + parent/child order); file-system boundary slice: a tmpfs mounted on r/m inside the tree, -xdev and -mount, -prune on the mount point / on a sibling / before and after -print, -depth, -maxdepth 1 (the mount point is visited, nothing below it, its later siblings always); scale slice: one hand-built tree (sibling names of 1, 15, 16, 17, 32 and 33 bytes sharing 16-byte prefixes, a chain six directories deep, a link to a directory between later siblings, a directory of 40 files) with every single and every pair of directories/links pruned, every name, all forms and windows, pre-order/-depth/unreachable -delete, -sorted on/off, -P/-L; non-trivial = case with a non-empty prune set"),
-        bound: json!({"max_nodes": n, "forms": ["paths-prune-or-print", "print-then-prune", "name-prune-or-print"], "orders": ["pre", "-depth", "unreachable -delete", "-depth after", "unreachable -delete after"], "windows": ["none","min1","max1","max2","min1 max2"]}),
+        bound: json!({"max_nodes": n, "forms": ["paths-prune-or-print", "print-then-prune", "name-prune-or-print"], "orders": ["pre", "-depth (spelled -d in half of the cases)", "unreachable -delete", "-depth after", "unreachable -delete after"], "windows": ["none","min1","max1","max2","min1 max2"]}),
         assumptions: vec!["-prune's truth value is true in both walk orders (the statement only fixes its effect on the walk)".into()],
         shards: 0,
         wall_cap_s: t.pick(300, 3600),
@@ -116,7 +116,8 @@ fn argv(fs: &Fs, c: &Case) -> Vec<String> {
     }
     match c.order {
         Order::Pre | Order::DepthAfter | Order::DeleteAfter => {}
-        Order::Depth => a.push("-depth".into()),
+        // (-d is the other spelling of -depth: used for the cases without -sorted)
+        Order::Depth => a.push(if c.sorted { "-depth" } else { "-d" }.into()),
         Order::Delete => a.extend(["(", "-false", "-delete", ")", "-o"].map(String::from)),
     }
     let paths = |a: &mut Vec<String>| {
@@ -152,7 +153,7 @@ fn argv(fs: &Fs, c: &Case) -> Vec<String> {
         }
     }
     match c.order {
-        Order::DepthAfter => a.push("-depth".into()),
+        Order::DepthAfter => a.push(if c.sorted { "-d" } else { "-depth" }.into()),
         Order::DeleteAfter => a.extend(["(", "-true", "-o", "-delete", ")"].map(String::from)),
         _ => {}
     }
